@@ -121,6 +121,74 @@ CHECKS = {
             "unknown.",
             "Trusted: the definition interpreter in rv/checks/c20.py. UNSPEC classes listed "
             "in the evidence assumptions."),
+    "C05": ("exploration", "DESIGN.md §4 C05",
+            "runtime monitoring: metamorphic monitor over recv() segmentations of a fixed "
+            "server byte stream (scriptable recording transport) + sentinel operations + "
+            "quiescence monitor",
+            "For each (operation, reply stream) the real Client is run under every single cut, "
+            "every pair of cuts for short streams, per-call caps 1/2/3/7/64 and random splits; "
+            "the outcome of the operation and of two sentinel operations must equal the outcome "
+            "under whole delivery, and no byte may be left unread.",
+            "Baseline is single-segment delivery of the same stream; recv() never blocks."),
+    "C08": ("exploration", "DESIGN.md §4 C08",
+            "runtime monitoring: strict RFC 5804 command parser applied to the bytes recorded "
+            "on the transport during each public call",
+            "Every byte passed to sendall() during one call is parsed by an independent strict "
+            "server-side parser: exactly one command, intended verb, arguments decode to the "
+            "caller's values (quoted escapes, literal lengths, unquoted numbers) - or the call "
+            "raised Error having written nothing.",
+            "Trusted: parse_command in rv/msmodel.py. Server answers OK to everything."),
+    "C09": ("exploration", "DESIGN.md §4 C09",
+            "runtime monitoring: reference server that knows the status it sent (canned mode) "
+            "+ sentinel operations; full product of the status-reply grammar",
+            "All operation x OK/NO/BYE x response-code shape x text shape combinations are "
+            "served to the real Client; return value / exception / errcode / errmsg must mirror "
+            "the reply, and two sentinel operations must then receive their own replies.",
+            "Lenient on errmsg representation (raw or unescaped, with or without literal CRLF)."),
+    "C10": ("fault_enumeration", "DESIGN.md §4 C10",
+            "runtime monitoring: trace specification checked on the recorded wire log "
+            "(plain/TLS channel flag) and online by the reference server; exhaustive fault "
+            "placement over the handshake",
+            "Exhaustive product of STARTTLS availability, pre/post-TLS SASL lists, fault kind at "
+            "each handshake step, TLS handshake outcome and preferred mechanism; plus call "
+            "histories x every public callable found by introspection. Checks: no script verb "
+            "before an OK to AUTHENTICATE on this connection, no AUTHENTICATE byte on the plain "
+            "channel or before the post-TLS capabilities, mechanism from the post-TLS list, no "
+            "credential bytes after a failed STARTTLS.",
+            "The static clause of the property is approximated dynamically by invoking every "
+            "public callable; private helpers unreachable from public methods are not covered."),
+    "C14": ("fault_enumeration", "DESIGN.md §4 C14",
+            "runtime monitoring: conservation monitor over the reference server's script store "
+            "under exhaustively enumerated initial states and fault placements",
+            "Every initial state (old/new absent/present/active, other scripts, old==new) x body "
+            "x fault (each of the 5 steps answered NO/BYE/silence/EOF; thorough: pairs) is run "
+            "through the real emulated renamescript; the store before and after must satisfy the "
+            "conservation law and a True result must imply the complete rename.",
+            "R-MS enforces RFC rules; names quoted, bodies literal."),
+    "C15": ("exploration", "DESIGN.md §4 C15",
+            "runtime monitoring: history checked step by step against an executable reference "
+            "model of the server (result of each call, server-side protocol-violation log, "
+            "quiescence)",
+            "Random sessions (5-30 operations) run against R-MS with random encodings, "
+            "response codes, permitted NO outcomes and recv() segmentation; after each step the "
+            "client's result is compared with the model's answer to that command.",
+            "Data equality under arbitrary name/body encodings is C17's; sessions there only "
+            "check success/failure, violation log and quiescence."),
+    "C16": ("exploration", "DESIGN.md §4 C16",
+            "runtime monitoring: SASL exchanges recorded by the reference server are decoded "
+            "(PLAIN, LOGIN, OAUTHBEARER, DIGEST-MD5 with response recomputation) and compared "
+            "with the selection rule and the caller's credentials",
+            "Random configurations of announced mechanisms, preferred mechanism, unicode "
+            "credentials, authorisation id and server verdict; mechanism choice, payload "
+            "exactness, connect result and authenticated flag are checked.",
+            "Trusted: SASL server sides and decoders in rv/msmodel.py."),
+    "C17": ("exploration", "DESIGN.md §4 C17",
+            "runtime monitoring: reference server store vs. data returned by the client, each "
+            "value served in every encoding RFC 5804 permits, counterfactual attribution",
+            "Bodies and name sets biased to protocol look-alikes are stored in R-MS and served "
+            "as literal and (where legal) quoted strings; getscript/listscripts results are "
+            "compared with the store line by line / name by name.",
+            "Names non-empty UTF-8 without CR/LF/NUL; line-ending style ignored."),
 }
 
 
